@@ -7,17 +7,18 @@
 (* (vertex enumeration) intersection together with its exact measures.     *)
 (***************************************************************************)
 EXTENDS G3DBodies, G3DMeasure, TLC, Json
-CONSTANTS S, BODIES1, BODIES2, T, SEED, NSHARD, GENK, NGEN
+CONSTANTS S, SA, OFF, BODIES1, BODIES2, T, SEED, NSHARD, GENK, NGEN
 VARIABLES ph, a, b, t, r      \* r: the exact intersection, computed once per case
 vars == <<ph, a, b, t, r>>
 \* three levels: first body, second body (untranslated), translation
-Init == ph = 1 /\ a \in { Body(nm, S) : nm \in BODIES1 } \cup GenHullSample(GENK, 2, S, SEED, NGEN) /\ b = NoneObj /\ t = Zero3 /\ r = NoneObj
+\* the first body at scale SA (SA > S gives nested pairs), the second at scale S translated by OFF*(1,1,1) + t, t in the T-box
+Init == ph = 1 /\ a \in { Body(nm, SA) : nm \in BODIES1 } \cup GenHullSample(GENK, 2, S, SEED, NGEN) /\ b = NoneObj /\ t = Zero3 /\ r = NoneObj
 Next == \/ ph = 1 /\ ph' = 2 /\ a' = a /\ b' \in { Body(nm, S) : nm \in BODIES2 } \cup GenHullSample(GENK, 2, S, SEED + 1, NGEN) /\ t' = t /\ r' = r
         \/ ph = 2 /\ ph' = 3 /\ a' = a /\ b' = b /\ t' \in { x \in Box(T) : InShard3(a, b, x, SEED, NSHARD) }
-           /\ r' = InterGeneric(a, Translate(b, t'))
+           /\ r' = InterGeneric(a, Translate(b, Add(t', <<OFF, OFF, OFF>>)))
 Spec == Init /\ [][Next]_vars
 
-B2  == Translate(b, t)
+B2  == Translate(b, Add(t, <<OFF, OFF, OFF>>))
 Typed     == ph = 3 => r.k \in DocKinds(a.k, b.k)
 Symmetric == ph = 3 => SameSet(r, InterGeneric(B2, a))
 InBoth    == ph = 3 => (r.k # "None" => Subset(r, a) /\ Subset(r, B2))
@@ -29,6 +30,7 @@ ProbesAgree == ph = 3 => LET bb == B2 IN \A P \in Probes : Mem(P, r) <=> (Mem(P,
 VolMonotone == ph = 3 =>
                  ((r.k = "Polyhedron" /\ a.k = "Polyhedron" /\ Small(r.vs, 30)) => RLeq(Measures(r).vol, Measures(a).vol))
 Touch == IF r.k = "None" THEN "-" ELSE
+         IF SameSet(r, B2) /\ \A P \in Vertices(B2) : PosClass(P, a) = "Interior" THEN "nested" ELSE
             IF \A P \in Vertices(r) : PosClass(P, a) # "Interior" /\ PosClass(P, B2) # "Interior" THEN "boundary" ELSE "overlap"
 Emit == ph < 3 \/ PrintT(ToJson([a |-> a, b |-> B2, s |-> S, exp |-> r, doc |-> DocKinds(a.k, b.k), cls |-> <<a.k, b.k, r.k, Touch>>, m |-> Measures(r)]))
 =============================================================================
